@@ -1,7 +1,7 @@
 META = {
     "level": "model_checking",
-    "technique": "TLA+ definitions of the RFC 4253 section 6 framing arithmetic (FramingDefs.tla) with a step machine of send_message (Framing.tla) model-checked by TLC for every payload length 0..4b+8, block size, framing mode and MAC length; the same requirement proved for all natural payload lengths with TLAPS (FramingLemma.tla) when tlapm is available; every packet written by a real Packetizer for every cipher x MAC x compression and every payload length 1..4b+8 (plus large ones) opened by an independent reader and judged by the trace spec",
-    "text": "TLC checks that the packet the model writes satisfies RFC 4253 6 (4..255 padding bytes, length field = 1 + payload + padding, encrypted portion a multiple of max(8, block) with the length bytes excluded for ETM/AES-GCM, raw length = 4 + length field + MAC) for all 22 (mode, block, MAC) configurations x 73 lengths, that a wrong padding constant breaks it, and emits every case; the real send_message output for each case and for all 216 suites x every length is decrypted by an independent reader (keys from an RFC 4253 7.2 re-implementation, `cryptography` primitives) and each packet record is checked by TLC against the same definitions; tlapm proves the lemma for all n in Nat (reported as obligations; the level stays model_checking)",
+    "technique": "TLA+ definitions of the RFC 4253 section 6 framing arithmetic (FramingDefs.tla) with a step machine of send_message (Framing.tla) model-checked by TLC for every payload length 0..4b+8, block size, framing mode and MAC length; the same requirement proved for all natural payload lengths with TLAPS (FramingLemma.tla) when tlapm is available; every packet written by a real Packetizer for every cipher x MAC x compression and every payload length 1..4b+8 (plus large ones), and after sequences of key switches between framing modes on one Packetizer, opened by an independent reader and judged by the trace spec",
+    "text": "TLC checks that the packet the model writes satisfies RFC 4253 6 (4..255 padding bytes, length field = 1 + payload + padding, encrypted portion a multiple of max(8, block) with the length bytes excluded for ETM/AES-GCM, raw length = 4 + length field + MAC) for all 22 (mode, block, MAC) configurations x 73 lengths and after every sequence of <= 2 (quick: 1) key switches between configurations (framing mode is per key epoch), that a wrong padding constant or an alignment offset remembered from an earlier epoch breaks it, and emits every case; the real send_message output for each case, for all 216 suites x every length, and for every ordered pair (thorough: triple) of framing classes switched through on one sender, is decrypted by an independent reader (keys from an RFC 4253 7.2 re-implementation, `cryptography` primitives) and each packet record is checked by TLC against the same definitions; tlapm proves the lemma for all n in Nat (reported as obligations; the level stays model_checking)",
     "note": "trusted: TLC, tlapm + SMT backend (for the lemma only), the independent reader in harness/drivers/packet.py, the table of RFC MAC lengths in this file; payload length 0 cannot be produced through send_message and is covered on the model only; with compression the payload length is that of the deflated bytes, which the reader inflates and compares with the message",
 }
 import random
@@ -74,31 +74,42 @@ class Tlaps(threading.Thread):
 
 def observe(rec_list, suite, rnd, lengths, strict, c, stage):
     """send one message per length through a real sender; one record per packet"""
-    mode, b, mac = negotiated(suite)
-    # only a sender is needed: its first NEWKEYS goes out in the clear, then everything is encrypted
+    observe_sequence(rec_list, [suite], rnd, lambda s: lengths, strict, c, stage)
+
+
+def observe_sequence(rec_list, seq, rnd, lengths_of, strict, c, stage):
+    """ONE real sender (one Packetizer) goes through the key epochs seq[0], seq[1], ... (a key switch, i.e.
+    _activate_outbound -> set_outbound_cipher, between them); in every epoch one message per length is sent and
+    each packet is opened by the independent reader set up for that epoch's algorithms and keys"""
     wire, keys = P.Wire(), []
-    tx = P.Sender(wire, suite, keys, strict)
-    tx.switch(P.fresh_secret(rnd))
-    op = P.Opener(suite, keys[0][:2], keys[0][1], tx.hashf)
-    z = P.suite_info(suite)["zlib"]
-    del wire.data[:]
-    for n in lengths:
-        msg = P.make_message(rnd, n, n)
-        seq = tx.seq
-        tx.send(msg)
-        raw = bytes(wire.data)
-        res = op.open(raw, seq)
-        del wire.data[:]          # keep memory flat
-        if "len_field" not in res or "padlen" not in res:
-            # cannot even be parsed: report as a record that fails every clause it has to
-            res.setdefault("len_field", 0)
-            res.setdefault("padlen", 0)
-            res.setdefault("payload_len", 0)
-        rec_list.append({"mode": mode, "b": b, "mac": mac, "n": res["payload_len"] if z else n,
-                         "contents_ok": res.get("message") == msg, "len_field": min(res["len_field"], 2 ** 30),
-                         "padlen": res["padlen"], "raw_len": len(raw), "mac_ok": bool(res.get("mac_ok")),
-                         "suite": "/".join(suite), "msg_len": n, "stage": stage})
-        c.case(key=(stage, suite, n))
+    tx = P.Sender(wire, seq[0], keys, strict)
+    history = []
+    for k, suite in enumerate(seq):
+        mode, b, mac = negotiated(suite)
+        # the first NEWKEYS goes out in the clear, later ones under the previous epoch's keys
+        tx.switch(P.fresh_secret(rnd), suite=suite if k else None)
+        op = P.Opener(suite, keys[-1][:2], keys[0][1], tx.hashf)
+        z = P.suite_info(suite)["zlib"]
+        del wire.data[:]
+        after = "+".join(history) or "-"
+        for n in lengths_of(suite):
+            msg = P.make_message(rnd, n, n)
+            seq_no = tx.seq
+            tx.send(msg)
+            raw = bytes(wire.data)
+            res = op.open(raw, seq_no)
+            del wire.data[:]          # keep memory flat
+            if "len_field" not in res or "padlen" not in res:
+                # cannot even be parsed: report as a record that fails every clause it has to
+                res.setdefault("len_field", 0)
+                res.setdefault("padlen", 0)
+                res.setdefault("payload_len", 0)
+            rec_list.append({"mode": mode, "b": b, "mac": mac, "n": res["payload_len"] if z else n,
+                             "contents_ok": res.get("message") == msg, "len_field": min(res["len_field"], 2 ** 30),
+                             "padlen": res["padlen"], "raw_len": len(raw), "mac_ok": bool(res.get("mac_ok")),
+                             "suite": "/".join(suite), "msg_len": n, "stage": stage, "epoch": k + 1, "after": after})
+            c.case(key=(stage, suite, n, after))
+        history.append(mode)
 
 
 def observe_plain(rec_list, rnd, lengths, c):
@@ -114,7 +125,7 @@ def observe_plain(rec_list, rnd, lengths, c):
         res = P.open_plain(raw)
         rec_list.append({"mode": "plain", "b": 8, "mac": 0, "n": n, "contents_ok": res["message"] == msg,
                          "len_field": res["len_field"], "padlen": res["padlen"], "raw_len": len(raw), "mac_ok": True,
-                         "suite": "none/none/none", "msg_len": n, "stage": "plain"})
+                         "suite": "none/none/none", "msg_len": n, "stage": "plain", "epoch": 0, "after": "-"})
         c.case(key=("plain", n))
 
 
@@ -124,13 +135,17 @@ def run(c):
     tl.start()
     maxn = 4 * 16 + 8
     # ---- M: every length / configuration, and the case list
-    r = c.mc_holds("Framing", cfg_text(constants={"MaxN": maxn, "PadBase": 3}, invariants=["Rfc4253", "AgreesDefs", "PadPeriodic", "Emit"]),
-                   name="all lengths 0..72", workers=1)
+    r = c.mc_holds("Framing", cfg_text(constants={"MaxN": maxn, "MaxSwitch": 1 if c.quick else 2, "PadBase": 3, "StaleAlign": False},
+                                       invariants=["Rfc4253", "AgreesDefs", "PadPeriodic", "Emit"]),
+                   name="all lengths 0..72, every sequence of <= %d key switches between framing modes" % (1 if c.quick else 2), workers=1)
     cases = r.printed("CASE")
-    if len(cases) * 4 != r.distinct:
-        raise Machinery("expected one CASE per written packet: %d cases, %d states" % (len(cases), r.distinct))
-    c.mc("Framing", cfg_text(constants={"MaxN": 20, "PadBase": 2}, invariants=["Rfc4253"]), expect="Rfc4253",
-         name="mutant: padding = 2 + bsize - ...")
+    if len(cases) != len({tuple(x[1:4]) for x in cases}) * (maxn + 1) or not cases:
+        raise Machinery("expected one CASE per (configuration, length) of the first epoch: %d cases" % len(cases))
+    if not c.quick:
+        c.mc("Framing", cfg_text(constants={"MaxN": 20, "MaxSwitch": 0, "PadBase": 2, "StaleAlign": False}, invariants=["Rfc4253"]),
+             expect="Rfc4253", name="mutant: padding = 2 + bsize - ...")
+    c.mc("Framing", cfg_text(constants={"MaxN": 20, "MaxSwitch": 2, "PadBase": 3, "StaleAlign": True}, invariants=["Rfc4253"]),
+         expect="Rfc4253", name="mutant: alignment header length remembered from an earlier key epoch")
 
     # ---- RP: the model's cases on the code (closed form of the model vs. the bytes)
     by_cfg = {}
@@ -180,6 +195,29 @@ def run(c):
         observe(recs, suite, rnd, lengths, rnd.random() < 0.5, c, "every-length")
     observe_plain(recs, rnd, list(range(1, 41)) + [1000, 65536], c)
 
+    # ---- TV: sequences of key epochs on ONE Packetizer (framing mode is per epoch; set_outbound_cipher may be called
+    # any number of times): every ordered pair of framing classes, ordered triples of modes (thorough: every triple of
+    # classes); after each switch every residue of the payload length modulo the block size is swept
+    fam = {}
+    for s_ in P.suites(["none"]):
+        fam.setdefault(P.framing_class(s_)[:3], []).append(s_)          # (cipher family, block, mode) -> suites
+    fams = sorted(fam)
+    seqs = [(x, y) for x in fams for y in fams]
+    if c.quick:
+        modes = sorted({f[2] for f in fams})
+        for t in [(x, y, z) for x in modes for y in modes for z in modes]:
+            seqs.append(tuple(rnd.choice([f for f in fams if f[2] == m]) for m in t))
+    else:
+        seqs += [(x, y, z) for x in fams for y in fams for z in fams]
+    n_seq = 0
+    for sq in seqs:
+        zl = rnd.choice(["none", "none", "zlib"])
+        suites_seq = [rnd.choice(fam[f])[:2] + (zl,) for f in sq]
+        observe_sequence(recs, suites_seq, rnd,
+                         lambda su: list(range(1, 2 * P.suite_info(su)["bsize"] + 2)) + ([] if c.quick else [rnd.randint(40, 5000)]),
+                         rnd.random() < 0.5, c, "epoch-sequence")
+        n_seq += 1
+
     keys = ("mode", "b", "mac", "n", "contents_ok", "len_field", "padlen", "raw_len", "mac_ok")
     done = 0
     for lo in range(0, len(recs), 20000):
@@ -191,15 +229,21 @@ def run(c):
 
         def describe(tid, clause, row, part=part):
             x = part[tid - 1]
-            return (vkey(clause, tuple(x["suite"].split("/"))) if x["mode"] != "plain" else "%s:plain" % clause,
-                    "%s: a %d byte message was written as a packet with length field %d, padding %d, payload %d, raw length %d "
+            key = vkey(clause, tuple(x["suite"].split("/"))) if x["mode"] != "plain" else "%s:plain" % clause
+            if x["epoch"] > 1:
+                key += ":after-" + x["after"]
+            return (key,
+                    "%s (key epoch %d of this Packetizer, earlier epochs: %s): a %d byte message was written as a packet with length field %d, padding %d, payload %d, raw length %d "
                     "(mode %s, block %d, MAC %d, MAC verifies: %s): clause %s fails"
-                    % (x["suite"], x["msg_len"], x["len_field"], x["padlen"], x["n"], x["raw_len"], x["mode"], x["b"], x["mac"],
+                    % (x["suite"], x["epoch"], x["after"], x["msg_len"], x["len_field"], x["padlen"], x["n"], x["raw_len"], x["mode"], x["b"], x["mac"],
                        x["mac_ok"], clause), x)
         c.verdicts(res["VERDICT"], describe)
     c.traces += done
     for x in recs[::max(1, len(recs) // 5)][:5]:
-        c.samples.append({k: x[k] for k in keys + ("suite", "msg_len", "stage")})
+        c.samples.append({k: x[k] for k in keys + ("suite", "msg_len", "stage", "epoch", "after")})
+    seq_recs = [x for x in recs if x["epoch"] > 1]
+    if seq_recs:
+        c.samples.append({k: seq_recs[len(seq_recs) // 2][k] for k in keys + ("suite", "msg_len", "stage", "epoch", "after")})
 
     # ---- the lemma for all n
     tl.join(5 if c.quick else 240)
@@ -211,11 +255,14 @@ def run(c):
         c.extra["checker_cmd"] = t["cmd"]
     c.extra["exhaustive"] = True
     c.extra["tlc_cases_rendered"] = n_rp
+    c.extra["epoch_sequences"] = n_seq
+    c.extra["packets_after_a_key_switch"] = len(seq_recs)
     c.extra["suites"] = len(all_suites)
     c.rule = ("every (mode, block, MAC length, payload length 0..72) the model reaches is emitted by TLC and rendered on a real suite of that "
               "framing (one per configuration in quick, all in thorough); plus every one of the %d cipher x MAC x compression suites x every "
-              "message length 1..4b+8 and large messages up to 2^20+40; plus plaintext (pre-key) packets.  distinct = distinct (stage, suite, "
-              "length)" % len(all_suites))
+              "message length 1..4b+8 and large messages up to 2^20+40; plus plaintext (pre-key) packets; plus sequences of key epochs on one "
+              "Packetizer: every ordered pair of the 7 (cipher family, block, mode) classes and %s, lengths 1..2b+1 after each switch.  "
+              "distinct = distinct (stage, suite, length, earlier epochs)" % (len(all_suites), "the 27 ordered triples of modes" if c.quick else "every ordered triple of classes"))
     c.assumptions = ["payload length 0 is not reachable through send_message (the message type byte is always present)",
                      "for all n in Nat: TLAPS lemma %s" % ("proved (%d obligations)" % t["obligations"] if t.get("all_proved")
                                                            else "NOT established in this run (%s); falls back to periodicity (PadPeriodic) + all residues"
